@@ -173,10 +173,8 @@ class Repo:
             self.parse_errors.append(f'{rel}: {e}')
             raise AnalysisError(f'cannot parse {rel}: {e}')
         set_parents(tree)
-        if os.environ.get('GXSTAT_NO_CANON') != '1':
-            # present every function in canonical form (attribute aliases inlined, continue-guards un-nested): see gxstat/inline.py
-            from .inline import canonicalise_module
-            canonicalise_module(tree)
+        # (no global canonicalisation: inlining `x = a.b.value` is only sound where nothing - including callees - re-binds a.b.value
+        # between the definition and the use; rules that know this for their construct call gxstat.inline.canonical_function)
         mi = ModuleInfo(rel=rel, path=path, tree=tree, source=src)
         for st in tree.body:
             if isinstance(st, ast.ClassDef):
